@@ -34,8 +34,11 @@ Definition oi (search_ok : bool) (nmsgs : N) : orc :=
   {| o_open := OpenErr; o_stream := StreamErr; o_search_ok := search_ok; o_nmsgs := nmsgs; o_json := JBad; o_fs_ok := false |}.
 Definition oj (j : json_shape) (fs_ok : bool) : orc :=
   {| o_open := OpenErr; o_stream := StreamErr; o_search_ok := false; o_nmsgs := 0; o_json := j; o_fs_ok := fs_ok |}.
-Definition it (pre : list N) (frame : string) (o : orc) : item :=
-  {| i_pre := map EvDone pre; i_frame := frame; i_orc := o |}.
+Definition it (pre : list event) (frame : string) (o : orc) : item :=
+  {| i_pre := pre; i_frame := frame; i_orc := o |}.
+(* filter classes of the harness templates: 1 = every message matches, 2 = no message matches *)
+Definition fl (k : N) : N -> bool := fun _ => k =? 1.
+Definition sk (one_pass : bool) (ws we np nn ne k : N) : stream_res := StreamOk one_pass ws we np nn ne (fl k).
 
 (* ---- rendering of replies *)
 Definition o_ok (k : ok_kind) : otree :=
